@@ -222,5 +222,9 @@ def run(ck, tier):
           txt == {True: ['DictTransactionManager'], False: ['FifoTransactionManager']},
           detail='manager-selection %s' % sorted(txt.items()), loc=cx.floc(init))
     ck.floor('R1', n, 1, 'execute paths')
+    ck.rule('R8', 'several replies in one segment are all dispatched: the socket framer consumes exactly one ADU per delivered message (shared with C03 R2)')
+    from ..share import import_findings
+    import_findings(ck, 'C03', 'R8', ('R2',), 'the reply that follows in the same TCP segment is cut or lost and its deferred never fires',
+                    detail_prefixes=('getFrame-range', 'advance'), construct_contains=('socket_framer',))
     ck.assume('Deferred semantics (fires once) are Twisted\'s; behaviour with more than 65535 outstanding requests is not decided')
     return cx.idx
